@@ -27,6 +27,7 @@ type c01stats struct {
 	Exec, FaultFree, FaultRuns, Accepted, Rejected, NewErrs int
 	Fired                                                   [simrt.NumFaultKinds]int
 	Toctou, Reread, DepthGE2, SoftHit, MultiFault           int
+	HistoryCases                                            int
 	MaxTicksPerByte                                         float64
 	MaxFSCalls                                              int
 	Distinct                                                map[uint64]bool
@@ -113,7 +114,7 @@ func (c *c01) Stats() map[string]any {
 		}
 	}
 	return map[string]any{
-		"line_noise_docs": genStats.Noise, "include_chains": genStats.Chains, "max_include_chain": genStats.MaxChain, "empty_run_includes": genStats.EmptyIncludes,
+		"cases_with_process_history": c.st.HistoryCases, "line_noise_docs": genStats.Noise, "include_chains": genStats.Chains, "max_include_chain": genStats.MaxChain, "empty_run_includes": genStats.EmptyIncludes,
 		"executions": c.st.Exec, "fault_free_runs": c.st.FaultFree, "fault_runs": c.st.FaultRuns, "accepted": c.st.Accepted,
 		"rejected": c.st.Rejected, "newjapi_errors": c.st.NewErrs, "faults_fired": fired, "probe_toctou_split": c.st.Toctou,
 		"probe_reread_changed": c.st.Reread, "probe_fault_at_depth_ge2": c.st.DepthGE2, "probe_soft_budget_hit": c.st.SoftHit,
@@ -185,6 +186,9 @@ func (c *c01) DumpCase(seed uint64, idx int) []Case {
 			base.Kind = "corpus-noise"
 		}
 		base.Extra = map[string]any{"nfaults": faultCount(r, idx < len(cp.roots)), "fseed": r.n(1 << 30)}
+		if idx >= len(cp.roots) && r.chance(120) {
+			base.Extra["history"] = c.historyProjects(r)
+		}
 		return []Case{base}
 	case idx < c.nCorpus+c.nGen:
 		base.Kind = "gen"
@@ -229,6 +233,9 @@ func (c *c01) DumpCase(seed uint64, idx int) []Case {
 			base.Project = lineNoise(&base.Project, r)
 		}
 		base.Extra = map[string]any{"nfaults": faultCount(r, r.chance(200)), "fseed": r.n(1 << 30), "mutual": cfg.MutualMacros}
+		if !cfg.LadderTop && r.chance(120) {
+			base.Extra["history"] = c.historyProjects(r)
+		}
 		respellRoot(&base.Project, r)
 		return []Case{base}
 	case idx < c.nCorpus+c.nGen+c.nSweep:
@@ -638,6 +645,25 @@ func (c *c01) check(cs *Case, record bool) *Case {
 		}
 		return nil
 	}
+	// what this process handled before (part of the case): whatever those projects leave behind -
+	// pooled objects, package-level state - must not make this one crash or hang
+	hist := decodeProjects(cs.Extra["history"])
+	for i := range hist {
+		if i > 0 {
+			simrt.KeepPoolsOnce()
+		}
+		hr, _ := c.exec(&hist[i], cs.Opts, nil, cs.Seed+50+uint64(i))
+		if v := c.judge(cs, &hr, nil); v != nil {
+			v.Detail = fmt.Sprintf("in project %d of the history of this case (%s): %s", i, hist[i].Name, v.Detail)
+			return v
+		}
+	}
+	if len(hist) > 0 {
+		simrt.KeepPoolsOnce()
+		if record {
+			c.st.HistoryCases++
+		}
+	}
 	// corpus / gen / soup: reference run, then the faulted run
 	ref, refDisk := c.exec(p, cs.Opts, nil, cs.Seed)
 	if record {
@@ -789,4 +815,45 @@ func pasteExpansion(texts []string) (size float64, acyclic bool) {
 		size += sz(n)
 	}
 	return size, acyclic
+}
+
+// historyProjects: 1-3 projects that this process handled before the project of the case -
+// fixtures (a third of them are invalid) and generated documents with planted faults.
+func (c *c01) historyProjects(r *rng) []Project {
+	var out []Project
+	cp := loadCorpus()
+	for k := 1 + r.n(3); k > 0; k-- {
+		if r.chance(600) {
+			for tries := 0; tries < 8; tries++ {
+				if i := r.n(len(cp.roots)); lightFixture(i) {
+					out = append(out, *corpusProject(i))
+					break
+				}
+			}
+			continue
+		}
+		cfg := randomCfg(r)
+		cfg.RecursiveMacros, cfg.UnusedPathParams, cfg.BadTypes, cfg.BadEnums = r.n(3), r.n(3), r.n(3), r.n(3)
+		d := generateDoc(r, cfg)
+		single, multi, _ := cutProject(d, r, "/sim/hist/api", 3)
+		if r.chance(500) {
+			out = append(out, single)
+		} else {
+			out = append(out, multi)
+		}
+	}
+	return out
+}
+
+func decodeProjects(v any) []Project {
+	if v == nil {
+		return nil
+	}
+	if pp, ok := v.([]Project); ok {
+		return pp
+	}
+	b, _ := json.Marshal(v)
+	var out []Project
+	json.Unmarshal(b, &out)
+	return out
 }
